@@ -13,6 +13,7 @@ import (
 	"bytes"
 	"compress/gzip"
 	"context"
+	crypt "crypto"
 	"encoding/base64"
 	"encoding/json"
 	"errors"
@@ -111,6 +112,27 @@ type c11Fix struct {
 	dids       []did.DID
 	kids       []string
 	ctx        context.Context
+
+	// harness-owned interleaving point: the StatusList2021.ResolveKey callback, which Credential(), Revoke() and Entry()
+	// invoke after their preliminary reads and BEFORE they open their transaction. An armed hook runs once, there.
+	// (The Sign callback is invoked INSIDE the transaction; on sqlite's single connection a second writer started
+	// from there would wait for that connection forever, so no hook is offered at that point.)
+	hookMu       sync.Mutex
+	onResolveKey func()
+}
+
+func (f *c11Fix) armHook(fn func()) {
+	f.hookMu.Lock()
+	f.onResolveKey = fn
+	f.hookMu.Unlock()
+}
+
+func (f *c11Fix) takeHook() func() {
+	f.hookMu.Lock()
+	defer f.hookMu.Unlock()
+	fn := f.onResolveKey
+	f.onResolveKey = nil
+	return fn
 }
 
 var (
@@ -181,6 +203,13 @@ func c11Fixture(t *testing.T) *c11Fix {
 		f.slA = revocation.NewStatusList2021(f.dbA, &c11Net{}, c11BaseURL) // the issuer node never needs to download
 		f.iss = issuer.NewIssuer(issStore, nil, nil, nil, f.res, f.keys, ld, trustA, f.slA)
 		f.verA = verifier.NewVerifier(verStoreA, f.res, keyRes, ld, trustA, f.slA)
+		realResolveKey := f.slA.ResolveKey // installed by issuer.NewIssuer
+		f.slA.ResolveKey = func(id did.DID, at *time.Time, rel resolver.RelationType) (string, crypt.PublicKey, error) {
+			if fn := f.takeHook(); fn != nil {
+				fn()
+			}
+			return realResolveKey(id, at, rel)
+		}
 
 		// remote verifier node
 		backB, err := engB.GetProvider("vcr").GetKVStore("backup-revoked-credentials", storage.PersistentStorageClass)
@@ -215,6 +244,7 @@ func (f *c11Fix) reset() error {
 	f.net.mu.Lock()
 	f.net.reqs, f.net.handler = nil, nil
 	f.net.mu.Unlock()
+	f.armHook(nil)
 	return nil
 }
 
